@@ -10,8 +10,10 @@ claimed = {
  'C01': ("Contracts on the real functions, discharged by SMT for all inputs: index/slice/sliceStep/field return null on wrong types and the "
          "specified elements otherwise; projectArray, filter, filterAndProjectArray, pruneArray are proved to keep exactly the non-null (resp. truthy) "
          "results in order (call-log ghost arrays, counting functions); comparison operators; precedence table; parser path contracts (token stream ghost). "
-         "Not yet covered by proof: the per-node cases of evaluate against a specification of the language (evaluate is used through its graph relation isEv), "
-         "flatten/flattenAndProjectArray/projectObject/objectValues functional clauses, wildcard-chain parsing.",
+         "Per-case contracts of evaluate (one clause per node type, existential over the graph relation isEv of evaluate and the graph relations ret_f of the helpers): each of the ~105 cases "
+         "evaluates exactly the named children in the stated context and scope and returns what the named helper returns for them in that argument order; pipe, and/or/not, ==/!=, multi-select list/hash (child and current forms, "
+         "null child gives null), literals, current/root, let and variable reference are stated directly. Not covered: flatten/flattenAndProjectArray/projectObject functional clauses, "
+         "multi-selects on a null current node (unpinned by the property), wildcard-chain parsing.",
          "contracts + VC generation over go/ssa + SMT (z3/cvc5)"),
  'C02': ("Proved: toInt (integer coercion: ok iff the value is an integer in int range, for all 14 numeric kinds plus decimal and json.Number), toNumber, "
          "typeName, toArray, mapArray, contains; parser arity helpers (every helper ends on `)`, zero arguments is an arity error, name -> node-type table of parser.function). "
@@ -45,16 +47,22 @@ claimed = {
          "a validly encoded U+FFFD is an ordinary rune; tokens keep their delimiters so the decoders can strip them safely. Not yet: the decoders' value (unescape functions) and the round-trip lemmas.",
          "contracts + VC generation over go/ssa + SMT"),
  'C17': ("Proved at the helper level: filterAndProjectArray keeps exactly the non-null projections of the elements whose filter value is truthy, in order (the composition filter-then-project); "
-         "pruneArray equals a projection with the identity; mapArray keeps nulls; isProjectNode. Not yet: per-case proof of evaluate for the fused nodes, parser half.",
+         "pruneArray equals a projection with the identity; mapArray keeps nulls; isProjectNode; per-case contracts of evaluate for the fused nodes (ProjectArrayNode applies the string short-cut only to slice nodes and yields null for other non-arrays, "
+         "the *Current and child forms call the same helper with the same arguments, pipe evaluates the right side on the left result). Not covered: the parser half (which spelling yields which fused node).",
          "contracts + VC generation over go/ssa + SMT"),
  'C19': ("Proved: variableScope.get returns the nearest enclosing binding (recursive ghost lookup over the scope chain, nil receiver handled), new links the parent and stores the bindings unchanged; "
          "every projection helper passes its own scope to evaluate unchanged (the scope is an argument of the evaluate relation in their postconditions); parser.let accepts only `$name = expr` bindings; "
-         "lexer keyword/variable tokens. Not yet: the DefineVariables and VariableNode cases of evaluate.",
+         "lexer keyword/variable tokens; the let case of evaluate evaluates every binding in the outer scope and context, builds a scope whose parent is the outer scope and whose bindings are exactly those values, and evaluates the body in it; "
+         "a variable reference returns lookupVal or an UndefinedVariableError.",
          "contracts + VC generation over go/ssa + SMT"),
  'C20': ("Proved: equal computes the specification's deep, type-strict equality specEq (arrays element-wise, objects key-wise with equal cardinality, numbers by decimal value, never across types); "
          "contains uses the same relation; isTrue is false exactly for null, false, empty string/array/object; filter keeps exactly the elements whose predicate value is truthy. "
-         "Not yet: reflexivity/symmetry/transitivity lemmas of specEq, And/Or/Not cases of evaluate.",
+         "the ==, !=, &&, ||, ! cases of evaluate return mkBool(specEq), its negation, one of the operands unchanged, and mkBool(!truthy). Not covered: reflexivity/symmetry/transitivity lemmas of specEq.",
          "contracts + VC generation over go/ssa + SMT"),
+ 'C15': ("Determinism by elimination of its sources in sequential Go, as a sweep over every function reachable from the API: no store to a package-level variable, no go/select/channel instruction, no external callee without a (deterministic, functional) contract, "
+         "and every loop over a map (10 of them) must carry a proved invariant tagged C15 that ties what the loop has computed to the set of members visited (let bindings, multi-select hashes, merge, object equality) or, for the permitted enumerations "
+         "(keys, values, items, object wildcard), to the number of members visited. Which invariant is adequate is a reviewed choice, not a proved meta-theorem; cross-process equality follows from the absence of address- or time-dependent operations (none in the SSA of the reachable code).",
+         "sweep obligations (map-range loops need order-insensitivity invariants; global stores, concurrency and unmodelled externals are rejected) over go/ssa + SMT"),
 
  'C03': ("Zero-annotation safety sweep over every function reachable from Search/Compile/MustCompile/Expression.Search and over every Error/Is/Unwrap method: one obligation per index, slice, nil dereference, "
          "unchecked type assertion, division, make size, explicit panic and external precondition (e.g. Decimal.Int64 on NaN), proved for all inputs with loop invariants where needed; AST well-formedness "
